@@ -21,7 +21,16 @@ def install_chain_models(ip):
         return PyObj("sliced", parent=ch, index=idx)
 
     ip.summaries["liesel/goose/pytree.py::slice_leaves"] = slice_leaves
-    ip.summaries["liesel/goose/pytree.py::concatenate_leaves"] = lambda ip_, args, kwargs: (PyObj("concat", parts=list(args[0]), axis=args[1]) if len(args[0]) else None)
+    def concat(ip_, args, kwargs):
+        if not len(args[0]):
+            return None
+        o = PyObj("concat", parts=list(args[0]), axis=args[1])
+        # the combined pytree is a mapping (a position / a dict of infos): code may copy its outer container - dict(x) is {"__concat__": x} here
+        o.attrs["keys"] = PyFn(lambda ip2: ["__concat__"], "keys")
+        o.attrs["__getitem__"] = PyFn(lambda ip2, k: o, "getitem")
+        return o
+
+    ip.summaries["liesel/goose/pytree.py::concatenate_leaves"] = concat
 
 
 @unit("C08.epoch_chain_append", "C08", [f"{CH}::ListEpochChain.__init__", f"{CH}::ListEpochChain.append", f"{CH}::ListChain.append", f"{CH}::ListEpochChain.epoch.fget"],
@@ -72,6 +81,36 @@ def u_epoch_chain_append(ip):
         c.cover("stored_nothing")
         c.oblige("nothing_stored_only_if_no_multiple_in_chunk", And(thinning_on, Not(Exists([i], And(i >= 0, i < s, (seen + i + 1) % th == 0)))))
         c.oblige("counter_invariant", chain.f["_states_counter"] == seen + 1 + s, structural=True)
+
+
+@unit("C08.each_epoch_counts_its_own_iterations", "C08", [f"{CH}::EpochChainManager.__init__", f"{CH}::EpochChainManager.advance_epoch", f"{CH}::EpochChainManager.append",
+                                                         f"{CH}::EpochChainManager.get_current_chain", f"{CH}::ListEpochChain.__init__", f"{CH}::ListEpochChain.append", f"{CH}::ListChain.get"],
+      assumptions=["REAL manager and chains; two consecutive epochs with the SAME thinning k, the first of any length (not a multiple of k, e.g. a warmup epoch), chunk sizes symbolic"])
+def u_epoch_counts_own(ip):
+    """'for each epoch with thinning k, exactly the states after WITHIN-EPOCH iterations k, 2k, ...': what is kept of the second epoch's first chunk depends on the
+    position within that epoch only - not on how many states the epoch before it has seen."""
+    c = ip.ctx
+    install_chain_models(ip)
+    s1, s2, th = c.fresh("size_epoch_1", Int), c.fresh("size_epoch_2", Int), c.fresh("thinning", Int)
+    c.assume(And(s1 >= 1, s2 >= 1, th >= 2))
+    c.witness("states_in_first_epoch", s1); c.witness("chunk_size", s2); c.witness("thinning", th)
+    EC = ip.repo(f"{EPOCH}::EpochConfig")
+    mgr = ip.call(ip.repo(f"{CH}::EpochChainManager"), [], {"apply_thinning": True})
+    ip.call(method(ip, mgr, "advance_epoch"), [ip.call(EC, [3, s1, th, None], {})], {})
+    ip.call(method(ip, mgr, "append"), [chunk_stub(ip, "chunk_epoch_1", s1)], {})
+    ip.call(method(ip, mgr, "advance_epoch"), [ip.call(EC, [4, s2, th, None], {})], {})
+    chunk = chunk_stub(ip, "chunk_epoch_2", s2)
+    ip.call(method(ip, mgr, "append"), [chunk], {})
+    cur = ip.call(method(ip, mgr, "get_current_chain"), [], {})
+    got = parts_of(ip.call(method(ip, cur, "get"), [], {}).f["_value"]) or []
+    i = z3.Int("ci")
+    if len(got) == 1 and isinstance(got[0], PyObj) and got[0].name == "sliced" and got[0].attrs["parent"] is chunk:
+        idx = got[0].attrs["index"]
+        ok = isinstance(idx, tuple) and len(idx) == 3 and isinstance(idx[1], FilteredIdx)
+        c.oblige("kept_iff_within_epoch_iteration_is_a_multiple_of_the_thinning", ForAll([i], Implies(And(i >= 0, i < s2), idx[1].keep(i) == ((i + 1) % th == 0))) if ok else z3.BoolVal(False))
+    else:
+        # nothing stored (or the whole chunk): only right if no (resp. every) within-epoch iteration of this chunk is a multiple of the thinning
+        c.oblige("kept_iff_within_epoch_iteration_is_a_multiple_of_the_thinning", And(z3.BoolVal(len(got) == 0), Not(Exists([i], And(i >= 0, i < s2, (i + 1) % th == 0)))))
 
 
 @unit("C08.list_chain", "C08", [f"{CH}::ListChain.append", f"{CH}::ListChain.get", f"{CH}::ListChain._concatenate", "liesel/option.py::Option.is_some"])
@@ -135,6 +174,13 @@ def u_manager_advance(ip):
         c.oblige(f"one_distinct_chain_per_epoch.flag_{flag}", len(chains) == n_ and len({id(x) for x in chains}) == n_ and all(ip.getattr(chains[j], "epoch") is cfgs[j] for j in range(n_)))
 
 
+def parts_of(out):
+    """the epoch parts a combined pytree consists of (also through a shallow copy of its outer mapping)"""
+    if isinstance(out, dict) and list(out) == ["__concat__"]:
+        out = out["__concat__"]
+    return list(out.attrs["parts"]) if isinstance(out, PyObj) and out.name == "concat" else None
+
+
 def combine_unit(n):
     @unit(f"C08.combine.n{n}", "C08", [f"{CH}::EpochChainManager.combine_all", f"{CH}::EpochChainManager.combine_filtered", f"{CH}::EpochChainManager.combine",
                                        f"{ENG}::SamplingResults.get_samples", f"{ENG}::SamplingResults.get_posterior_samples", f"{ENG}::SamplingResults.get_posterior_transition_infos"],
@@ -161,7 +207,7 @@ def combine_unit(n):
                 kind, out = try_call(ip, method(ip, res, acc))
                 # which epochs were selected is decided per path: the path condition fixes every type == POSTERIOR test
                 if kind == "ok":
-                    parts = list(out.attrs["parts"]) if isinstance(out, PyObj) and out.name == "concat" else None
+                    parts = parts_of(out)
                     sel = And(*[(types[j] == 4) if any(p is stubs[j][1] for p in (parts or [])) else Or(types[j] != 4, z3.BoolVal(not present[j])) for j in range(n)])
                     c.oblige(f"{acc}.exactly_posterior_epochs.{tagp}", z3.BoolVal(parts is not None) if parts is None else sel)
                     c.oblige(f"{acc}.epoch_order.{tagp}", parts is not None and parts == [stubs[j][1] for j in range(n) if any(p is stubs[j][1] for p in parts)])
@@ -169,7 +215,7 @@ def combine_unit(n):
                     c.oblige(f"{acc}.raises_only_if_no_posterior_samples.{tagp}", And(*[Or(types[j] != 4, z3.BoolVal(not present[j])) for j in range(n)]))
             kind, out = try_call(ip, method(ip, res, "get_samples"))
             if kind == "ok":
-                c.oblige(f"get_samples.all_epochs.{tagp}", isinstance(out, PyObj) and list(out.attrs["parts"]) == want)
+                c.oblige(f"get_samples.all_epochs.{tagp}", parts_of(out) == want)
             else:
                 c.oblige(f"get_samples.raises_only_if_empty.{tagp}", len(want) == 0)
     return u
@@ -177,6 +223,30 @@ def combine_unit(n):
 
 for _n in (1, 2, 3):
     combine_unit(_n)
+
+
+@unit("C08.accessors_follow_continued_sampling", "C08", [f"{ENG}::SamplingResults.get_posterior_samples", f"{ENG}::SamplingResults.get_posterior_transition_infos", f"{ENG}::SamplingResults.get_samples",
+                                                          f"{CH}::EpochChainManager.combine_filtered", f"{CH}::EpochChainManager.combine_all"],
+      assumptions=["history on ONE results object (a live view onto the engine's chain managers): accessor - a further posterior epoch is sampled - accessor again"])
+def u_accessors_history(ip):
+    """what an accessor returns is the posterior-epoch part of what is stored WHEN IT IS CALLED: after a further posterior epoch has been sampled, the same
+    results object reports it too (nothing is remembered from an earlier call), and an earlier result is not changed by later sampling."""
+    c = ip.ctx
+    install_chain_models(ip)
+    stubs = [epoch_chain_stub(ip, 0, True, z3.IntVal(3)), epoch_chain_stub(ip, 1, True, z3.IntVal(4))]
+    chains = [s[0] for s in stubs]
+    mgr = new_obj(ip, f"{CH}::EpochChainManager", _chains=chains, _apply_thinning=False)
+    res = new_obj(ip, f"{ENG}::SamplingResults", positions=mgr, transition_infos=mgr)
+    for acc in ("get_posterior_samples", "get_posterior_transition_infos", "get_samples"):
+        del chains[2:]
+        kind1, first = try_call(ip, method(ip, res, acc))
+        want1 = [stubs[1][1]] if acc != "get_samples" else [stubs[0][1], stubs[1][1]]
+        c.oblige(f"{acc}.first_call", kind1 == "ok" and parts_of(first) == want1)
+        later = epoch_chain_stub(ip, 2, True, z3.IntVal(4))  # the engine samples one more posterior epoch
+        chains.append(later[0])
+        kind2, second = try_call(ip, method(ip, res, acc))
+        c.oblige(f"{acc}.second_call_includes_the_new_epoch", kind2 == "ok" and parts_of(second) == want1 + [later[1]])
+        c.oblige(f"{acc}.first_result_unchanged", kind1 == "ok" and parts_of(first) == want1)
 
 
 @unit("C08.scan_f_records", "C08", [f"{E}._sample_many.<locals>.scan_f"], summaries=["KernelSequence.transition (C07.kernel_sequence)"])
